@@ -7,6 +7,7 @@ from .. import cppdrv, gen, rtmodel
 from . import common as K
 
 ID = "C10"
+REACH_TARGETS = [('runtime.ManagedFilter._process_model', 'formak.runtime:ManagedFilter._process_model')]
 LEVEL = "exploration"
 RULE = ("moves (current time a in [-1e3,1e3], target a+delta, delta in {0, +-1e-10, +-0.999e-9, +-1.001e-9, "
         "+-n*max_dt, +-(n+f)*max_dt, +-max_dt*(1+-2^-52), random}, n<=2000) x max_dt in "
